@@ -31,7 +31,7 @@ ASSUMPTIONS = [
     "the legend's 'a->b:' prefix wording is not judged, only the <year>:<METHOD> tokens in order",
 ]
 
-HIST = gen.GenCfg(min_steps=3, max_steps=12, max_exchanges=3, max_holders=2, bulk_prob=0.06, fiat_columns=True)
+HIST = gen.GenCfg(min_steps=3, max_steps=12, max_exchanges=3, max_holders=2, bulk_prob=0.06, fiat_columns=True, big_lots=True, fiat_only_out_fee=True)
 COUNTRIES = ("us", "us", "es", "ie", "jp", "generic")
 
 
@@ -41,7 +41,7 @@ def budget(tier: str) -> Dict[str, Any]:
 
 @st.composite
 def strategy_case(draw: Any) -> Dict[str, Any]:
-    case = draw(filegen.file_case(countries=COUNTRIES, hist=HIST))
+    case = draw(filegen.file_case(countries=COUNTRIES, hist=HIST, flavours=("mixed",) * 7 + ("dust_on_big_lot",)))
     if case["lang"] is None and case["country"] != "jp" and draw(st.booleans()):
         case["lang"] = cli.COUNTRY_LANGS[case["country"]][0]
     return case
@@ -164,7 +164,9 @@ def check_asset(ctx: Ctx, report: report_model.FullReport, asset: str, ref: Dict
             for k, ((row_i, row), exp) in enumerate(zip(data, expected_rows)):
                 shown = cellv(row, 0)
                 if shown in (None, ""):
-                    if exp["sold_pct"] != 0 or k == 0:
+                    # rp2 leaves the cell blank when the percentage compares equal to zero at its 13-decimal resolution
+                    # (half a unit of the 13th decimal rounds either way: anything below 1e-13 may be blank)
+                    if abs(exp["sold_pct"]) >= Fraction(1, 10**13) or k == 0:
                         return ctx.fail("sold_percentage_wrong", f"sheet '{in_out}' row {row_i + 1}: sold % is empty, computed value is {exp['sold_pct']}")
                     continue
                 if not num_equal(shown, exp["sold_pct"]):
